@@ -303,7 +303,7 @@ def gen_bool(env: Env, t: int, depth: int) -> E:
     d = env.draw
     kinds = ["cmp", "cmp", "cmp", "lit", "int01", "defined"]
     if depth > 0:
-        kinds += ["and", "or", "not", "not", "paren", "chain"]
+        kinds += ["and", "or", "not", "not", "paren", "chain", "chain_r"]
     k = d(st.sampled_from(kinds))
     nd = depth - 1
     if k == "cmp" or (k == "chain" and depth <= 0):
@@ -321,6 +321,15 @@ def gen_bool(env: Env, t: int, depth: int) -> E:
         if int(_CMP[op](lt, c)) != t:
             op = _COMPLEMENT[op]
         return binop(op, gen_bool(env, lt, nd), gen_int(env, c, 0), t)
+    if k == "chain_r":
+        # c op (bool) : the right operand is itself a comparison; with an equality operator on the left of a relational one
+        # no parentheses are rendered (a == b < c), so the relative precedence of the two comparison levels decides
+        rt = d(st.integers(0, 1))
+        c = d(st.sampled_from([0, 1, 2]))
+        op = d(st.sampled_from(list(_CMP)))
+        if int(_CMP[op](c, rt)) != t:
+            op = _COMPLEMENT[op]
+        return binop(op, gen_int(env, c, 0), gen_bool(env, rt, nd), t)
     if k in ("and", "or"):
         if k == "and":
             lt, rt = (1, 1) if t else d(st.sampled_from([(0, 0), (0, 1), (1, 0)]))
